@@ -124,6 +124,7 @@ package mcp
 //@   assert at call handleReceive: @handler-context-carries-the-request-id calls(withValue) >= 1 && typeIs(callArg(withValue, 1, 1), idContextKey) && typeIs(callArg(withValue, 1, 2), jsonrpc2.ID) && callArg(withValue, 1, 2).(jsonrpc2.ID) == req.ID
 //@   ensures @only-calls-other-than-initialize-run-concurrently calls(async) <= 1 && (calls(async) == 1 ==> old(req.ID.value != nil) && method != methodInitialize)
 //@   ensures @dispatch-at-most-once calls(dispatch) <= 1
+//@   ensures @every-dispatched-call-other-than-initialize-runs-concurrently calls(dispatch) == 1 && old(req.ID.value != nil) && method != methodInitialize ==> calls(async) == 1
 //@   ensures @ping-always-served metaErr == nil && !isNew && method == methodPing ==> calls(dispatch) == 1
 //@   ensures @lifecycle-always-dispatched metaErr == nil && !isNew && (method == methodInitialize || method == notificationInitialized) ==> calls(dispatch) == 1
 //@   ensures @meta-error-returned metaErr != nil ==> calls(dispatch) == 0 && result.1 == metaErr
@@ -1569,7 +1570,7 @@ package mcp
 
 // canceller.Preempt (C04, receiver side): only notifications/cancelled cancels anything, and what is cancelled is the
 // request whose id the notification names (coerced by MakeID); every message is then passed on (ErrNotHandled).
-//@ func (*canceller).Preempt [C04]
+//@ func (*canceller).Preempt [C04, C02]
 //@   track jsonrpc2.MakeID as coerce
 //@   ghostvar cancelled int = 0
 //@   on call go:Cancel: cancelled = cancelled + 1
@@ -1578,6 +1579,11 @@ package mcp
 //@   assert at call go:Cancel: @cancels-the-named-request req.Method == notificationCancelled && calls(coerce) == 1 && callResult(coerce, 1, 1) == nil && $1 == callResult(coerce, 1, 0) && $0 == c.conn
 //@   ensures @nothing-else-cancels old(req.Method) != notificationCancelled ==> cancelled == 0 && $result.1 == jsonrpc2.ErrNotHandled
 //@   ensures @one-cancellation-per-notice cancelled <= 1
+// (C02) Preempting never swallows a message: whatever arrives - a cancellation notice included, and a malformed one
+// that carries an id all the more - is passed on to the session as not handled here, so that it is checked and
+// answered like any other request (an id on notifications/cancelled is an invalid request, -32600).
+//@   ensures @every-message-is-passed-on $result.1 != nil && ($result.1 == jsonrpc2.ErrNotHandled || old(req.Method) == notificationCancelled) && $result.0 == nil
+//@   ensures @a-well-formed-cancellation-is-passed-on-too old(req.Method) == notificationCancelled && cancelled == 1 ==> $result.1 == jsonrpc2.ErrNotHandled
 
 // ServerSession.Close (C05, and the link C11 relies on): the connection is closed exactly once per call, after the
 // pending subscriptions/listen handlers were cancelled; the onClose hook runs only after the connection is closed and
